@@ -12,14 +12,22 @@ ID = 'C02'
 
 KINDS = ['left', 'right', 'infix', 'prefix', 'postfix']
 # a spelling with dots is an operator made of several literals, written as a sequence: '+.-' is ["+", "-"]
-POOL = ['+', '-', '++', '+-', '!', 'not', '-+', '+.-', 'not.!', '-.-']
+POOL = ['+', '-', '++', '+-', '!', 'not', '-+', '+.-', 'not.!', '-.-', '?word']
 
 
 def op_parts(s):
+    if s == '?word':
+        return ['and']
     return s.split('.') if '.' in s else [s]
 
 
+WORD_OPS = ('and', 'or')
+
+
 def op_expr(s):
+    if s == '?word':
+        # an operator that is a regex accepted by a predicate: /[a-z]+/ where `lambda x: x in (...)`
+        return ('where', ('re', '[a-z]+', False), ('py', 'lambda _x: _x in %r' % (WORD_OPS,)))
     parts = op_parts(s)
     return ('str', s) if len(parts) == 1 else ('seq', [('str', x) for x in parts])
 
@@ -104,7 +112,7 @@ def token_alphabet(rows, paren, ternary):
     al = ['1', '2']
     for _, ops in rows:
         for s in ops:
-            for part in op_parts(s):
+            for part in (['and', 'or', 'xor'] if s == '?word' else op_parts(s)):
                 if part not in al:
                     al.append(part)
     if paren:
@@ -211,7 +219,7 @@ def run_table(rec, rng, rows, operand_kind, paren, ignore, ternary, quick):
     rereadable = paren != 'discard'
     desc = b.descs[-1]
     feats = []
-    spell = [s.replace('.', '') for _, ops in rows for s in ops]
+    spell = [s.replace('.', '') for _, ops in rows for s in ops if s != '?word']
     if any('.' in s for _, ops in rows for s in ops):
         feats.append('multi-literal-operator')
     if len(set(spell)) < len(spell):
@@ -283,6 +291,11 @@ def fixed_tables():
         [('infix', ['not.!', 'not']), ('prefix', ['!'])],
         [('postfix', ['-.-', '-']), ('left', ['+'])],
         [('prefix', ['+.-', '+']), ('left', ['-'])],
+        # an operator that is a regex accepted or rejected by a predicate (xor is rejected)
+        [('left', ['?word']), ('left', ['+'])],
+        [('postfix', ['?word']), ('left', ['+'])],
+        [('prefix', ['?word']), ('left', ['+'])],
+        [('infix', ['?word', 'not']), ('prefix', ['-'])],
         [('prefix', ['!']), ('right', ['+-', '+']), ('postfix', ['!']), ('left', ['-', '+'])],
         [('postfix', ['!']), ('prefix', ['not']), ('infix', ['-+', '-']), ('left', ['+'])],
     ]
